@@ -89,7 +89,8 @@ def c14_bec2(chk, es, t):
 @op("prop.c14bf2")
 def c14_bf2(enf, t):
     text = b3.parse_str(t)
-    return classify(lambda: Bf3File.bf2_import(io.StringIO(text), enf == "1"))
+    import impl_bf2
+    return classify(lambda: impl_bf2._import(text, enf == "1"))
 
 
 @op("prop.c14cfg")
